@@ -5,7 +5,7 @@ sparse and dense runs have identical trajectories in exact arithmetic.  Harness:
 and CSC through every solver that accepts both; estimators with CSR / list / float32 / C-ordered input."""
 from .solver_common import run_formats
 
-LEAN_MODULES = ["Skglm.Properties.C10"]
+LEAN_MODULES = ["Skglm.Properties.C10", "Skglm.Properties.LBFGS"]
 
 
 def run(ctx, rep):
@@ -15,6 +15,11 @@ def run(ctx, rep):
     run_formats(ctx, rep)
     from . import est_common
     est_common.run_containers(ctx, rep)
+    from . import moves_common
+    moves_common.run_lbfgs(ctx, rep)
+    moves_common.run_bcd_moves(ctx, rep, ctx.n(25, 300))      # CSC block epoch vs the dense model
+    moves_common.run_mt_moves(ctx, rep, ctx.n(20, 300))
+    moves_common.run_pn_direction(ctx, rep, ctx.n(20, 300))
 
 
 def replay(ctx, payload):
